@@ -406,3 +406,43 @@ def c01(run):
     run.assumptions = ['pairwise (2-way) coverage of the configuration dimensions around a base configuration; higher-order interactions are only sampled by the sweep configurations',
                        SYMBOLIC]
     run.notes['trusted_base'] = TRUSTED
+
+
+# ---------------------------------------------------------------------------
+# C16  cleartext signature framework
+
+def cleartext_cfg(maxlen, trims=True, invs='NoEarlyTerminator TextSurvives SignerVerifierAgree SignedFormIsCanonicalTrimmed'):
+    return f"""CONSTANTS
+  MaxLen = {maxlen}
+  SignerTrims = {'TRUE' if trims else 'FALSE'}
+SPECIFICATION Spec
+INVARIANTS {invs}
+CHECK_DEADLOCK FALSE
+"""
+
+
+@prop('C16', 'model_checking')
+def c16(run):
+    run.mc('MCCleartext', cleartext_cfg(run.q(6, 7)), name='mc', timeout=run.q(300, 2400))
+    run.mc('MCCleartext', cleartext_cfg(3, trims=False), name='sens_signer_does_not_trim', expect_violation='SignerVerifierAgree')
+    n_gen = run.q(5, 6)
+    g = run.mc('MCCleartext', cleartext_cfg(n_gen, invs='GenCase'), name='gen', workers=1, count=False, timeout=900)
+    cases = g.cases
+    if run.replay and run.replay.get('source_case'):
+        cases = [run.replay['source_case']]
+    for i, c in enumerate(cases):
+        c['ci'] = i
+    body, summary, oks = run.harness('c16', cases, timeout=3000)
+    run.distinct_nontrivial = summary['extra']['nontrivial']
+    run.traces_validated = summary['evaluations']
+    run.exhaustive = True
+    run.rule = (f'Cleartext.tla (dash escaping, body framing, reader termination rule, unescape+trim, signed form) is model-checked over every '
+                f'text of <= 6 (thorough 7) symbols over {{dash, space, tab, CR, LF, other}}; TLC emits every text of <= {n_gen} symbols with its '
+                'escaped form, its RFC signed form and whether the format can represent it. The harness signs each with v4 and v6 keys '
+                '(sign, new, new_many), checks text()/signed_text()/verify in memory and after to_armored_string -> from_string, checks the '
+                'emitted body cannot terminate early, and for every single-symbol neighbour swaps the body and expects verification to '
+                'fail exactly when the signed form differs; plus a header matrix. non-trivial = texts whose escaped or signed form differs from the text')
+    run.add_samples(cases[300:302])
+    run.add_samples(oks[:2])
+    run.assumptions = [SYMBOLIC, 'text is abstracted to six byte classes; representatives: "-", " ", TAB, CR, LF, "a" / e-acute']
+    run.notes['trusted_base'] = TRUSTED
